@@ -41,7 +41,7 @@ COMPONENTS = {
     "real": ["EnsembleEvaluator RNG handling", "SciPySampler (all methods)", "PluginManager (cached entry-point plug-ins)", "plan / steps", "scipy.optimize incl. differential_evolution (50% of runs)"],
     "stub": ["cooperative scheduler (baton-passing threads)", "SimEvaluator", "sim/scripted optimizer"],
 }
-PROBES = ["reused_config_object_runs", "fresh_interpreter_other_hashseed", "interleaved_runs", "switches", "gradient_evaluations", "builtin_sampler_runs", "de_runs", "real_scipy_runs",
+PROBES = ["same_step_run_twice", "reused_config_object_runs", "fresh_interpreter_other_hashseed", "interleaved_runs", "switches", "gradient_evaluations", "builtin_sampler_runs", "de_runs", "real_scipy_runs",
           "reused_manager_runs", "seed_change_checked", "companions", "global_rng_draws_in_evaluator"]
 METHODS = ["uniform", "norm", "truncnorm", "sobol", "halton", "lhs"]
 REAL = ["slsqp", "l-bfgs-b", "nelder-mead", "cobyla"]
@@ -190,6 +190,24 @@ def execute(scn: dict) -> dict:
                          "detail": f"{label} run with a shared validated EnOptConfig object: {_first_difference(solo, run)} "
                                    f"(samplers {[s_['method'] for s_ in A['configs'][0]['samplers']]})"})
             break
+    # (3c) the same step object run twice with the same validated configuration object (a restart loop): the second
+    # run starts from the seed again, it does not continue the random stream of the first
+    A2 = copy.deepcopy(A)
+    A2["faults"] = [f for f in A2.get("faults", []) if f.get("eval") is None]  # (faults aimed at one call would hit the first run only)
+    if len(A2["plan"]["steps"]) == 1 and not A2["plan"]["steps"][0].get("nested"):
+        A2["plan"]["steps"].append({**A2["plan"]["steps"][0], "same_as": 0})
+        twice = harness.run_scenario(A2, shared={"reuse_validated": True})
+        marks = getattr(twice, "call_marks", [])
+        if len(marks) == 2 and len(twice.exits) == 2 and twice.exits[0][0] == "ret":
+            probe("same_step_run_twice")
+            c1, c2 = twice.evaluator.calls[marks[0]:marks[1]], twice.evaluator.calls[marks[1]:]
+            same = len(c1) == len(c2) and all(a.kind == b.kind and a.variables.shape == b.variables.shape
+                                              and a.variables.tobytes() == b.variables.tobytes() for a, b in zip(c1, c2))
+            if not same or twice.exits[0][2] != twice.exits[1][2]:
+                k = next((i for i, (a, b) in enumerate(zip(c1, c2)) if a.kind != b.kind or a.variables.tobytes() != b.variables.tobytes()), min(len(c1), len(c2)))
+                viol.append({"clause": "trace-differs-when-step-is-run-again", "sig": {"backend": backend},
+                             "detail": f"one step object run twice with one validated configuration object: the first run made {len(c1)} evaluator "
+                                       f"calls and ended {twice.exits[0]}, the second {len(c2)} and ended {twice.exits[1]}; first difference at call {k}"})
     # seed change changes the perturbations
     # (only for samplers with a continuous distribution: the scrambling of a Sobol/Halton sequence is a
     # discrete object and two seeds may legitimately produce the same few points)
